@@ -123,6 +123,7 @@ type Client struct {
 	Tainted  string
 	Failed   string
 	pendingD []pendingDangling
+	ivFail   map[string]string
 	// F3rids: rids on which an unsubscribe request was accepted on a provisional count
 	F3rids      map[string]bool
 	failedProps map[string]bool
@@ -134,7 +135,7 @@ type Client struct {
 
 func (s *Sim) newClient() *Client {
 	c := &Client{s: s, Idx: len(s.Clients), State: "new", Proto: protoLegacy, Reqs: map[uint64]*CReq{},
-		F3rids: map[string]bool{}, getSet: map[string]int{}, DeletedSeen: map[string]bool{}, Direct: map[string]int{}, Fuzzy: map[string]bool{}, Cache: map[string]*CRes{}, Revoked: map[string]int{}, CIdx: -1}
+		F3rids: map[string]bool{}, ivFail: map[string]string{}, getSet: map[string]int{}, DeletedSeen: map[string]bool{}, Direct: map[string]int{}, Fuzzy: map[string]bool{}, Cache: map[string]*CRes{}, Revoked: map[string]int{}, CIdx: -1}
 	c.Name = fmt.Sprintf("k%d", c.Idx)
 	s.Clients = append(s.Clients, c)
 	return c
@@ -846,6 +847,7 @@ func (c *Client) onEvent(f *Frame) {
 			return
 		}
 		c.addSet(&rs, f)
+		held = c.reheld(rid, held, name, bare, f)
 		var vals map[string]any
 		if err := json.Unmarshal(dm["values"], &vals); err != nil {
 			c.violate("C02", "c", "change-shape", "client %s: change event without values object: %s", c.Name, trunc(f.Raw, 200))
@@ -864,6 +866,7 @@ func (c *Client) onEvent(f *Frame) {
 			return
 		}
 		c.addSet(&rs, f)
+		held = c.reheld(rid, held, name, bare, f)
 		var ae struct {
 			Idx   *int `json:"idx"`
 			Value any  `json:"value"`
@@ -970,6 +973,23 @@ func (c *Client) handedBefore(iv *Interval) bool {
 		}
 	}
 	return false
+}
+
+// reheld: the resource set of an event may re-send the very resource the event
+// is about (a self reference added while the resource was unsent): the event
+// then applies to the new copy and belongs to its holding interval.
+func (c *Client) reheld(rid string, held *CRes, name, bare string, f *Frame) *CRes {
+	nh := c.Cache[rid]
+	if nh == nil || nh == held {
+		return held
+	}
+	if held.iv != nil && len(held.iv.Events) > 0 {
+		held.iv.Events = held.iv.Events[:len(held.iv.Events)-1]
+	}
+	if nh.iv != nil {
+		nh.iv.Events = append(nh.iv.Events, IvEvent{Name: name, Data: bare, Step: f.Step})
+	}
+	return nh
 }
 
 func evClass(name string) string {
